@@ -41,6 +41,10 @@ SIGS = [
     # parameters with (scalar) defaults that receive arrays: nothing may compare them with the default
     ([("x", "a"), ("eps", "", 1.0), ("y", "a", None)], "a"),
     ([("x", "a b"), ("eps", "", 1.0), ("tol", "", 0.5)], "b a"),
+    # f-string axes reading shape-only attributes of an *array* argument (a tracer answers these too)
+    ([("x", "a b"), ("y", "{len(x.shape)} b")], None),
+    ([("x", "a b"), ("y", "a")], "{x.shape[0]}+1"),
+    ([("x", "*v a"), ("y", "{x.ndim}")], "{x.shape[-1]}"),
 ]
 TREE = [("arr", "a b"), ("arr", "*v a"), ("union", [("arr", "a 3"), ("arr", "a b")])]
 
@@ -62,7 +66,7 @@ def instances(tier, seed):
     return out
 
 
-BOUNDS = dict(calls="%d signatures (1-2 array parameters + return; parameter names colliding with axis names) x {typeguard, beartype}; rank 0..2, sizes unbounded" % len(SIGS),
+BOUNDS = dict(calls="%d signatures (1-3 array parameters + return; parameter names colliding with axis names; f-string axes over len(x.shape) / x.ndim / x.shape[0] / x.shape[-1] of an array argument) x {typeguard, beartype}; rank 0..2, sizes unbounded" % len(SIGS),
               checks="7 dim strings x 3 prior states, rank 0..3", trees="3 leaf types x 3 skeletons of MonArr leaves",
               bridging="every 6th completed path of a 'call' instance: jit, vmap, grad, eval_shape, jit(vmap), vmap(jit) on real jax arrays of the path model's shapes (sizes capped at 6)")
 STUBS = c01.STUBS + ["MonArr: monitored duck array standing in for a tracer (no concrete value available)"]
@@ -114,11 +118,24 @@ def _mon_body(*args):
 def expected_call(V, sig, ret, shapes, rshape):
     """reference verdict of a decorated call (sequential semantics; parameter values are never axes)"""
     B = D.Bindings()
-    seq = [(D.parse_ref(p[1]), sh) for p, sh in zip(sig, shapes)]
+    # {expr} over array arguments: rewritten to plain {name} arguments of the reference
+    args = {}
+
+    def rw(d):
+        for p, sh in zip(sig, shapes):
+            pn = p[0]
+            for pat, key, val in ((f"{{len({pn}.shape)}}", f"{pn}_rank", len(sh)), (f"{{{pn}.ndim}}", f"{pn}_rank", len(sh)),
+                                  (f"{{{pn}.shape[0]}}", f"{pn}_first", core.lift(sh[0]) if sh else None),
+                                  (f"{{{pn}.shape[-1]}}", f"{pn}_last", core.lift(sh[-1]) if sh else None)):
+                if pat in d:
+                    d = d.replace(pat, "{" + key + "}")
+                    args[key] = val
+        return d
+    seq = [(D.parse_ref(rw(p[1])), sh) for p, sh in zip(sig, shapes)]
     if ret is not None:
-        seq.append((D.parse_ref(ret), rshape))
+        seq.append((D.parse_ref(rw(ret)), rshape))
     for dm, sh in seq:
-        st = D.step(dm, [core.lift(s) for s in sh], B)
+        st = D.step(dm, [core.lift(s) for s in sh], B, args)
         if V.decide(st["strict"] == D.ACC):
             B = st["B"]
             continue
